@@ -1443,3 +1443,41 @@ pub fn statement_order_workload(ctx: &mut Ctx) {
         ctx.shape_str(&format!("order|{:?}", placed));
     }
 }
+
+// ---------------------------------------------------------------------------------------------
+// C16's WAC-program workload: digests of resolving + encoding generated programs
+
+pub struct ProgramDigester {
+    lib: Lib,
+}
+
+impl ProgramDigester {
+    pub fn new() -> Result<Self, String> {
+        Ok(ProgramDigester { lib: build_lib()? })
+    }
+
+    /// (program text, outcome digest) of the well-formed program drawn from `seed`; spreads that
+    /// fill several arguments, fills, nested `new`s and spread exports are all common.
+    pub fn digest(&self, seed: u64) -> Option<(String, String)> {
+        let mut rng = Rng::new(seed);
+        let n = rng.range(3, 9);
+        let mut g = Gen { lib: &self.lib, rng: &mut rng, prog: vec![], k: 0, allow_mix: false };
+        g.prog.push(Stmt::Let { id: "s".into(), expr: Expr::New(0, vec![]) });
+        let mut tries = 0;
+        while g.prog.len() < n && tries < 40 {
+            tries += 1;
+            let st = g.statement();
+            g.prog.push(st);
+            if evaluate(&self.lib, &g.prog).0.is_err() {
+                g.prog.pop();
+            }
+        }
+        let text = print_program(&self.lib, &g.prog);
+        let out = catch(|| wac_outcome(&self.lib, &text)).ok()?;
+        let digest = match &out.2 {
+            Some(b) => format!("ok:{}", sha256_hex(b)),
+            None => format!("{}:{}", out.0, sha256_hex(out.1.as_bytes())),
+        };
+        Some((text, digest))
+    }
+}
